@@ -187,7 +187,7 @@ ADD_TEXT = {
     "C14": " Further canonical legs compare a source with the same source plus one redundant single-line parenthesis pair (where the policy drops them and the pair is not printed as a multi-line group) and with one pun spelling toggled, each variant confirmed to desugar identically. A CLI leg names several files in one `fmt --check` invocation and compares the listing and the exit status with the single-file verdicts.",
     "C16": " Programs with several duplicate definitions, unbound names or missing arms at once, and random ill-formed grammar terms, target the order in which ambiguous diagnostics are chosen. Blocks with several recursive components through parameters are included.",
     "C17": " The quick tier also runs the allocator-identity race under Miri at four scheduler seeds. A language-server leg drives the repository's cajun binary over stdio with seeded open / change / close / reopen histories on several documents (every text identifies itself by a unique symbol and a warning on a unique line; all messages stamped from one logical clock; pauses aimed at fractions of a measured analysis): answers never come from contents replaced before the request was sent, diagnostics never describe a text older than their version label, at quiescence answers and the last publication are those of the current contents (also for a root importing another open document), and the server neither dies nor stops answering. A pending-slot leg calls check_resolved with ten distinguishable programs on one long-lived session and on concurrent snapshots against fresh sessions.",
-    "C18": " Generated programs include comatch redexes inside thunks / continuations / fix bodies and existential packages. A shapes generator runs 24 binder / scrutinee / arm shapes over the repository's standard library (each accepted and run by the interpreter first) through the same monitors; matches with overlapping arms are generated.",
+    "C18": " Generated programs include comatch redexes inside thunks / continuations / fix bodies and existential packages. A shapes generator runs 24 binder / scrutinee / arm shapes over the repository's standard library (each accepted and run by the interpreter first) through the same monitors; matches with overlapping arms are generated. A fixture-mutants generator applies token-level changes to the repository's compile and exec fixtures (arms swapped, duplicated, turned into catch-alls, literals and identifiers replaced, uses wrapped into value-level lets), installs each as an overlay at the fixture's own path, and lowers every mutant that check still accepts as an executable.",
     "C19": " Generated programs include destructuring binds that return one component, comatch redexes and existential packages. The lowering is run up to the first-order program only, so that matches the assembly stage refuses (nested patterns, catch-all arms, overlapping arms) are compared too; a layouts generator builds a product on one side of a type abstraction and takes it apart on the other (open finding: static product layout under polymorphism).",
     "C20": " Inside blocks, tuple literals taken apart by patterns with another grouping are generated on purpose.",
     "C15": " A fifth of the histories contain unreadable files and symbolic links appearing (two open findings live there).",
